@@ -3,6 +3,8 @@ import NemoVerif.Models.Dnf
 import NemoVerif.Models.GroupExpand
 import NemoVerif.Models.GroupVM
 import NemoVerif.Models.GroupExpandAwait
+import NemoVerif.Models.GroupExpandWhen
+import NemoVerif.Models.GroupFlowVM
 
 namespace NemoVerif.Drive.C07
 open Lean NemoVerif NemoVerif.Drive NemoVerif.Dnf NemoVerif.GroupExpand
@@ -52,6 +54,7 @@ def primToJson : Prim → Json
   | .matchFin r => Json.arr #[.str "matchFin", nat r]
   | .beginScope sc => Json.arr #[.str "beginScope", nat sc]
   | .endScope sc => Json.arr #[.str "endScope", nat sc]
+  | .send n => Json.arr #[.str "send", nat n]
 
 def primOfJson (j : Json) : Except String Prim := do
   let a ← j.getArr?
@@ -75,6 +78,7 @@ def primOfJson (j : Json) : Except String Prim := do
   | "matchFin" => pure (.matchFin (← arg.getNat?))
   | "beginScope" => pure (.beginScope (← arg.getNat?))
   | "endScope" => pure (.endScope (← arg.getNat?))
+  | "send" => pure (.send (← arg.getNat?))
   | _ => pure .other
 
 def optClausesToJson : Option Clauses → Json
@@ -112,6 +116,40 @@ def handle (op : String) (j : Json) : Except String Json := do
       ("dnf", clausesToJson (toDnf (normalize g))),
       ("readback", optClausesToJson (readBackAwait real)),
       ("distinct", .bool (labelsDistinct real))])
+  | "expandWhen" =>
+    -- `when g_0 <body_0> or when g_1 <body_1> … [else <els>]`; `flows` = the atoms that are flows (the others are events)
+    let cs ← (← (← j.getObjVal? "cases").getArr?).toList.mapM fun c => do
+      let g ← gOfJson (← c.getObjVal? "g")
+      let body ← (← (← c.getObjVal? "body").getArr?).toList.mapM primOfJson
+      pure (g, body)
+    let els ← match j.getObjVal? "else" with
+      | .ok (.arr a) => do pure (some (← a.toList.mapM primOfJson))
+      | _ => pure none
+    let flows ← natsOfJson (← j.getObjVal? "flows")
+    let real ← (← (← j.getObjVal? "prims").getArr?).toList.mapM primOfJson
+    let mine := expandWhen (fun a => flows.contains a) cs els
+    let rb := readBackWhen (cs.map (·.2)) els real
+    pure (Json.mkObj [("prims", Json.arr (mine.map primToJson).toArray),
+      ("dnf", Json.arr (cs.map fun c => clausesToJson (toDnf (normalize c.1))).toArray),
+      ("readback", match rb with | none => .null | some ds => Json.arr (ds.map clausesToJson).toArray)])
+  | "flow" =>
+    -- `await g` / `when g` over flows with Finished / Failed events: per sequence, per event the output
+    -- (0 quiet, 1 marker, 2 failure path) and the flows of the child instances still running.
+    -- event encoding: n < 100 = the instances of flow n finish, n ≥ 100 = the instances of flow n-100 fail
+    let g ← gOfJson (← j.getObjVal? "g")
+    let d := toDnf (normalize g)
+    let seqs ← (← j.getObjVal? "seqs").getArr?
+    let rec go (st : GroupFlow.FSt) : List GroupFlow.FEv → List Json
+      | [] => []
+      | e :: es =>
+        let r := GroupFlow.step st e
+        Json.mkObj [("o", nat (match r.2 with | .quiet => 0 | .marker => 1 | .failed => 2)),
+          ("ch", natsToJson (r.1.children.map (·.2)))] :: go r.1 es
+    let outs ← seqs.toList.mapM fun s => do
+      let es ← natsOfJson s
+      let evs := es.map fun n => if n ≥ 100 then GroupFlow.FEv.fail (n - 100) else GroupFlow.FEv.fin n
+      pure (Json.arr (go (GroupFlow.init d) evs).toArray)
+    pure (Json.mkObj [("runs", Json.arr outs.toArray), ("init", natsToJson ((GroupFlow.init d).children.map (·.2)))])
   | "vm" =>
     -- head-level machine on the clauses of `normalize g`: per sequence (with its recorded tie-breaks) the marker flags
     -- and the heads (position, status) after every event
